@@ -50,6 +50,11 @@ def gen_cases(rng, tier, scale):
             # a writer that fails only once: anything written after the failure becomes visible
             cases.append({'line': case_line(f'b{i}o{k}', t, d, p, e, 1000000 + k), 'kind': 'fault', 'grp': 100000 + i, 'k': k, 'nw': nw,
                           'full': r['out'], 'tags': ['fail-once'], 'tpl': t})
+            # the same fault with another io::ErrorKind (every 7th k, kinds in rotation): the kind must not matter
+            if k % 7 == 3 or k == 0:
+                kind = (i + k) % 7
+                cases.append({'line': case_line(f'b{i}e{k}', t, d, p, e, (kind + 2) * 1000000 + k), 'kind': 'fault', 'grp': 200000 + i, 'k': k,
+                              'nw': nw, 'full': r['out'], 'tags': ['error-kind'], 'tpl': t})
     return cases
 
 def oracle(c, io, mo):
